@@ -225,11 +225,79 @@ ZERO = RF.const(0)
 ONE = RF.const(1)
 
 
+DEFS = {}           # uninterpreted symbol -> (kind, argument RFs): what it stands for, so that it can be evaluated at a concrete length
+
+
 def fresh(kind, args, is_int):
     name = '%s(%s)' % (kind, ','.join(str(a) for a in args))
     if is_int:
         INT_SYMS.add(name)
+    DEFS[name] = (kind, tuple(args))
     return RF.sym(name)
+
+
+def eval_rf(rf, k, depth=0):
+    """exact value of a configuration quantity at the concrete length parameter k (every uninterpreted symbol evaluated from its
+    definition), or None when a symbol cannot be evaluated exactly (a square root that is not truncated, ...)"""
+    if depth > 12:
+        return None
+    env = {}
+    for sname in p_syms(rf.n) | p_syms(rf.d):
+        if sname == 'k':
+            env['k'] = k
+            continue
+        v = eval_sym(sname, k, depth + 1)
+        if v is None:
+            return None
+        env[sname] = v
+    d = p_eval(rf.d, env)
+    if d == 0:
+        return None
+    return p_eval(rf.n, env) / d
+
+
+def eval_sym(name, k, depth=0):
+    import math
+    if name not in DEFS:
+        return None
+    kind, args = DEFS[name]
+    if kind == 'trunc' and len(args) == 1:
+        # truncation of a float: the argument may be the square root of an exactly known quantity
+        a = args[0]
+        syms = p_syms(a.n) | p_syms(a.d)
+        if len(syms) == 1 and a.is_poly() and list(a.n) == [((next(iter(syms)), 1),)] and a.n[((next(iter(syms)), 1),)] == 1:
+            inner = next(iter(syms))
+            if inner in DEFS and DEFS[inner][0] == 'sqrt':
+                x = eval_rf(DEFS[inner][1][0], k, depth + 1)
+                if x is None or x < 0:
+                    return None
+                if x.denominator == 1:
+                    return Fraction(math.isqrt(int(x)))
+                return Fraction(int(math.floor(math.sqrt(float(x)))))
+        x = eval_rf(a, k, depth + 1)
+        return None if x is None else Fraction(int(x))          # toward zero
+    vals = [eval_rf(a, k, depth + 1) for a in args]
+    if any(v is None for v in vals):
+        return None
+    if kind == 'floordiv' and len(vals) == 2:
+        return None if vals[1] == 0 else Fraction(math.floor(vals[0] / vals[1]))
+    if kind == 'abs' and len(vals) == 1:
+        return abs(vals[0])
+    m = re.match(r'^wrap(\d+)$', kind)
+    if m and len(vals) == 1 and vals[0].denominator == 1:
+        return Fraction(int(vals[0]) % (1 << int(m.group(1))))
+    m = re.match(r'^(saturating|wrapping)_(add|sub|mul)_(\w+)$', kind)
+    if m and len(vals) == 2:
+        mode, op, ty = m.groups()
+        x = {'add': vals[0] + vals[1], 'sub': vals[0] - vals[1], 'mul': vals[0] * vals[1]}[op]
+        bits = BITS.get(ty, 64)
+        lo, hi = (-(1 << bits), (1 << bits) - 1) if ty.startswith('i') else (0, (1 << bits) - 1)
+        if mode == 'saturating':
+            return min(max(x, lo), hi)
+        if x.denominator == 1 and not ty.startswith('i'):
+            return Fraction(int(x) % (1 << bits))
+        return None
+    return None
 
 
 # ---------------------------------------------------------------------------------------------------------------
